@@ -18,6 +18,7 @@ import itertools
 import math
 import os
 import sys
+import time
 
 from lib import common as C
 
@@ -132,6 +133,65 @@ def lean_comp(c):
     if k in ("tensor", "list"):
         return f"l {len(c['v'])} " + " ".join(str(v) for v in c["v"])
     return None
+
+
+def lean_bcomp(c):
+    return "e" if c["k"] == "ellipsis" else lean_comp(c)
+
+
+def b_line(W, comps, bare):
+    """request line for the whole translated `__getitem__` (batch shape, ellipsis, bare / tuple presentation)"""
+    toks = [lean_bcomp(c) for c in comps]
+    if any(t is None for t in toks) or (bare and len(comps) != 1):
+        return None
+    return (f"B {1 if W.inter else 0} {len(W.batch)} " + "".join(f"{b} " for b in W.batch) +
+            f"{W.n} {W.t} {1 if bare else 0} {len(comps)} " + " ".join(toks))
+
+
+def cov_str(kind, cov):
+    """a batch of tagged covariance matrices (..., m, m) in the driver's notation (exact integers)"""
+    c = cov.round().long()
+    m = c.shape[-1]
+    blocks = c.reshape(-1, m, m).tolist() if c.numel() else [[[] for _ in range(m)] for _ in range(int(math.prod(c.shape[:-2])))]
+    return (f"{kind}|{','.join(str(int(x)) for x in c.shape[:-2])}|" +
+            "/".join("_".join(",".join(map(str, row)) for row in blk) for blk in blocks))
+
+
+def _parse_cov(txt):
+    import torch
+    kind, shape, blocks = txt.split("|")
+    shape = [int(x) for x in shape.split(",")] if shape else []
+    mats = [[[int(v) for v in row.split(",")] if row else [] for row in blk.split("_")] if blk else [] for blk in blocks.split("/")]
+    m = len(mats[0]) if mats and mats[0] else 0
+    return kind, torch.tensor(mats, dtype=torch.long).reshape(*shape, m, m)
+
+
+def _broadcasts_to(gen, real):
+    """`gen` (batch of matrices in the driver's notation) expanded over leading batch dimensions is `real`"""
+    try:
+        (k1, a), (k2, b) = _parse_cov(gen), _parse_cov(real)
+        return k1 == k2 and a.numel() > 0 and bool((a.expand(b.shape) == b).all())
+    except Exception:
+        return False
+
+
+def spec_cov_str(W, exp_mean, eff):
+    """SPEC of d[idx] from torch's mean[idx] on the tagged mean alone: the kind the index asks for and the covariance of
+    the selected (batch element, point, task) triples, flattened the way that kind of result flattens its mean."""
+    if eff is None:
+        kind = "mt1" if W.inter else "mt0"
+    else:
+        ek = (kind_of(eff[0]), kind_of(eff[1]))
+        kind = ("mt1" if W.inter else "mt0") if ("slice" in ek and "int" not in ek) else "mvn"
+    if kind == "mvn":
+        locp = exp_mean if exp_mean.dim() >= 1 else exp_mean.reshape(1)
+    elif exp_mean.dim() < 2:
+        return None
+    elif W.inter:
+        locp = exp_mean.reshape(*exp_mean.shape[:-2], exp_mean.shape[-2] * exp_mean.shape[-1])
+    else:
+        locp = exp_mean.transpose(-1, -2).reshape(*exp_mean.shape[:-2], exp_mean.shape[-2] * exp_mean.shape[-1])
+    return cov_str(kind, W.expected_cov(locp))
 
 
 def ints_of(length):
@@ -250,6 +310,26 @@ def check_cell(ctx, W, comps, bare, eff, origin, lines, recs, bcomp=None):
     want_line = (eff is not None and lean_comp(eff[0]) is not None and lean_comp(eff[1]) is not None
                  and not W.dense_psd and not batch_adv)
     rec = {"text": text, "key": key, "replay": replay, "valid": valid, "real": None, "spec": None, "rejected": err is not None}
+    # the whole translated __getitem__ (ellipsis, batch components, batch-only branch) on this very cell
+    bl = None if W.dense_psd else b_line(W, comps, bare)
+    if bl is not None and valid and exp_mean.numel() == 0 and any(c["k"] in ("tensor", "list") for c in comps):
+        # torch does not bounds-check index tensors when the result is empty (no element is ever read): validity of such an
+        # index is not observable, the cell is judged by the specification oracle only
+        ctx.count("empty_with_index_tensor_not_sent")
+        bl = None
+    if bl is not None:
+        brec = {"text": text, "key": key, "b": True, "valid": valid, "rejected": err is not None, "real": None,
+                "spec": "none" if not valid else spec_cov_str(W, exp_mean, eff), "batch_adv": batch_adv}
+        if valid and err is None:
+            try:
+                g = Rcov.reshape(1, 1) if (exp_mean.dim() == 0 and Rcov.numel() == 1) else Rcov
+                if g.dim() >= 2 and g.shape[-1] == g.shape[-2]:
+                    brec["real"] = cov_str(("mt1" if R._interleaved else "mt0") if isinstance(R, MultitaskMultivariateNormal)
+                                           else "mvn", g)
+            except Exception:
+                pass
+        lines.append(bl)
+        recs.append(brec)
     if not valid:
         ctx.count("invalid_for_mean")
         if err is None:
@@ -266,6 +346,13 @@ def check_cell(ctx, W, comps, bare, eff, origin, lines, recs, bcomp=None):
         rk = f"{cls}:{key.split(':', 2)[2]}:{type(err).__name__}"
         ctx.notes.setdefault("rejected_by_kind", {})
         ctx.notes["rejected_by_kind"][rk] = ctx.notes["rejected_by_kind"].get(rk, 0) + 1
+        if exp_mean.numel() == 0 and 0 in tuple(exp_mean.shape[:-1]) and "cannot reshape tensor of 0 elements" in str(err):
+            # an EMPTY batch (a zero-size dimension in front of the event): the constructor's `reshape(*batch, -1)` is
+            # ambiguous for 0 elements and raises.  Degenerate result (no distribution at all), recorded, not judged.
+            ctx.count("empty_batch_rejected_by_constructor")
+            ctx.notes["observation_empty_batch"] = ("d[idx] selecting an empty batch raises in __init__ "
+                                                    "(mean.reshape(*batch, -1) with 0 elements): " + text)
+            return
         if cls == "plain":
             # ints / slices / 1-d integer index tensors / lists / ellipsis that torch accepts for the mean: d[idx] must
             # exist (otherwise a check that rejects everything would pass)
@@ -285,9 +372,9 @@ def check_cell(ctx, W, comps, bare, eff, origin, lines, recs, bcomp=None):
             problems.append(f"result is multitask but mean[idx] has shape {tuple(exp_mean.shape)}")
             locp = exp_mean.reshape(-1)
         elif R._interleaved:
-            locp = exp_mean.reshape(*exp_mean.shape[:-2], -1)
+            locp = exp_mean.reshape(*exp_mean.shape[:-2], exp_mean.shape[-2] * exp_mean.shape[-1])
         else:
-            locp = exp_mean.transpose(-1, -2).reshape(*exp_mean.shape[:-2], -1)
+            locp = exp_mean.transpose(-1, -2).reshape(*exp_mean.shape[:-2], exp_mean.shape[-2] * exp_mean.shape[-1])
     else:
         locp = exp_mean if exp_mean.dim() >= 1 else exp_mean.reshape(1)
     # (3) covariance = tagged sub-matrix of the selected pairs
@@ -305,7 +392,9 @@ def check_cell(ctx, W, comps, bare, eff, origin, lines, recs, bcomp=None):
     if problems:
         ctx.fail(key, f"{text}: " + "; ".join(problems)[:300], replay)
     # ---- positions for the model comparison (lazy tags only: exact decode from the diagonal)
-    if want_line:
+    if want_line and locp.numel() == 0 and locp.dim() >= 1 and locp.shape[-1] > 0:
+        ctx.count("empty_batch_event_positions_not_decoded")   # no batch member to read the event positions from (B line covers it)
+    elif want_line:
         m = locp.shape[-1]
         spec_pos = (locp.reshape(-1, m)[0].round().long() % W.N).tolist() if locp.numel() else []
         kindtxt = ("mt1" if R._interleaved else "mt0") if is_mt else "mvn"
@@ -448,6 +537,77 @@ def batch_comps(rng):
             comp_slice(None, 1, None), comp_tensor([1, 0]), comp_tensor([1], "list"), comp_tensor([-1, 0, 1])]
 
 
+def rank_batch_shapes(n, t):
+    """batch shapes of rank 0..3: size-1 dimensions, sizes coinciding with n / t / each other, and unequal ones"""
+    out = []
+    for shp in ((), (1,), (2,), (n,), (t,), (1, 1), (1, 2), (2, 1), (n, t), (t, n), (2, 3), (1, 1, 2), (2, 1, 3), (n, 1, t),
+                (1, n, 1), (t, t, n)):
+        if shp not in out and math.prod(shp) * n * t <= 96:
+            out.append(shp)
+    return out
+
+
+def batch_comp_choices(b, rng, adv):
+    """index components for a batch dimension of size b"""
+    out = [comp_int(v) for v in range(-b, b)] + [FULL, FULL, comp_slice(1, None, None), comp_slice(None, None, 2),
+                                                 comp_slice(None, b + 2, None), comp_slice(-1, None, None), comp_slice(None, -1, None),
+                                                 comp_slice(-b - 1, b, 3), comp_slice(b, None, None)]
+    if adv:
+        out += [comp_tensor([rng.randrange(-b, b) for _ in range(rng.choice([1, 2, 3]))], rng.choice(["tensor", "list"]))]
+    return out
+
+
+def run_rank_cells(ctx, rng, quick, lines, recs, deadline=None):
+    """The whole `__getitem__` (tuple normalisation, Ellipsis at EVERY position, appended task slice, batch-only branch,
+    batch components) on batch shapes of rank 0..3 incl. size-1 dimensions and sizes that coincide with n / t / each
+    other; every cell goes through the specification oracle and - as a `B` line - through the generated dispatch."""
+    sizes = [(1, 1), (2, 2), (3, 2), (2, 3), (1, 3), (4, 1), (3, 3)] if quick else [(n, t) for n in range(1, 5) for t in range(1, 5)]
+    per_world = 5 if quick else 24
+    for (n, t) in sizes:
+        ev = [c for c in event_cells(n, t, rng, True) if c[2] not in ("exotic",)]
+        for inter in (True, False):
+            for shp in rank_batch_shapes(n, t):
+                if deadline is not None and time.time() > deadline:
+                    return
+                W = Tagged(n, t, inter, shp)
+                k = len(shp)
+                for j in range(per_world):
+                    adv = rng.random() < 0.2
+                    bcs = [rng.choice(batch_comp_choices(b, rng, adv)) for b in shp]
+                    p, a, origin = rng.choice(ev)
+                    advc = [b for b in bcs if b["k"] in ("tensor", "list")]
+                    bc = advc[0] if advc else (bcs[0] if bcs else None)
+                    for comps, bare in presentations(bcs, p, a, rng, allv=True):
+                        check_cell(ctx, W, comps, bare, (p, a), f"rank{k}:" + origin, lines, recs, bcomp=bc)
+                    # short forms: every prefix of the batch components (batch-only branch), with and without Ellipsis,
+                    # bare single component, batch + point (task slice appended)
+                    if j < 2:
+                        for m in range(k + 1):
+                            pre = bcs[:m]
+                            pc = [b for b in pre if b["k"] in ("tensor", "list")]
+                            pb = pc[0] if pc else (pre[0] if pre else None)
+                            check_cell(ctx, W, pre, False, None, f"rank{k}-short", lines, recs, bcomp=pb)
+                            if m == 1:
+                                check_cell(ctx, W, pre, True, None, f"rank{k}-short", lines, recs, bcomp=pb)
+                            check_cell(ctx, W, pre + [ELL], False, (FULL, FULL), f"rank{k}-short", lines, recs, bcomp=pb)
+                            onb = [b for b in pre[:max(0, m - 2)] if b["k"] in ("tensor", "list")]
+                            check_cell(ctx, W, [ELL] + pre, False, _eff_after_ellipsis(pre, k), f"rank{k}-short", lines, recs,
+                                       bcomp=onb[0] if onb else None)
+                        check_cell(ctx, W, bcs + [p], False, (p, FULL), f"rank{k}-short", lines, recs, bcomp=bc)
+                        if k == 0:
+                            check_cell(ctx, W, [p], True, (p, FULL), f"rank{k}-short", lines, recs, bcomp=None)
+
+
+def _eff_after_ellipsis(pre, k):
+    """(..., c1, …, cm): the components land on the LAST m dimensions of a mean of rank k + 2"""
+    m = len(pre)
+    if m == 0:
+        return (FULL, FULL)
+    if m == 1:
+        return (FULL, pre[-1])
+    return (pre[-2], pre[-1])
+
+
 def run_reported(ctx):
     """The minimal replays of the defects exposed in the design phase / while building this check (n=3, t=2), first,
     so that they head the report when they are present."""
@@ -475,8 +635,14 @@ def run_cells(ctx, want_driver=True, deep=False):
         if k not in worlds:
             worlds[k] = Tagged(n, t, inter, batch, psd)
         return worlds[k]
+    deadline = _state.get("deadline")
+    if deadline is not None:
+        rng.shuffle(sizes)      # a capped search should not spend its budget on the smallest shapes only
     for (n, t) in sizes:
         for inter in (True, False):
+            if deadline is not None and time.time() > deadline:
+                ctx.notes["deep_search_truncated_at"] = f"n={n} t={t} after {ctx.evaluations} cases"
+                break
             W = world(n, t, inter, ())
             # constructor: the flat mean is the tag vector, the mean view gives the matrix back
             if not bool((W.d.loc == torch.arange(W.N, dtype=torch.float64)).all()) or not bool((W.d.mean == W.mean).all()):
@@ -531,6 +697,7 @@ def run_cells(ctx, want_driver=True, deep=False):
                 Wp = world(n, t, inter, (), True)
                 for (p, a, origin) in rng.sample(sub, min(len(sub), 60 if quick else 300)):
                     check_cell(ctx, Wp, [p, a], False, (p, a), "psd:" + origin, lines, recs)
+    run_rank_cells(ctx, ctx.rng("rank-cells"), quick, lines, recs, deadline)
     ctx.notes["cells_sent_to_driver"] = len(lines)
     if not want_driver:
         return
@@ -552,6 +719,17 @@ def run_cells(ctx, want_driver=True, deep=False):
             if spec_mism <= 3:
                 ctx.broke("correspondence", "spec-model-mismatch:" + rec["key"],
                           f"{rec['text']}: Lean specGetitem gives {spec}, torch mean[idx] gives {rec['spec']}")
+        if rec.get("b") and rec["valid"] and rec["rejected"] and gen != "none":
+            ctx.count("generated_selects_where_implementation_raises" + ("_batch_advanced" if rec.get("batch_adv") else ""))
+        if rec.get("batch_adv") and rec["real"] is not None and rec["real"].split("|")[2].replace("/", "").replace("_", "") == "":
+            # an EMPTY selection combined with an index tensor on a batch dimension: linear_operator keeps the batch
+            # dimension where torch broadcasts it away; outside the model of LinearOperator indexing, inside the known finding
+            ctx.count("batch_advanced_empty_not_compared")
+            continue
+        if rec.get("batch_adv") and rec["real"] is not None and gen != rec["real"] and _broadcasts_to(gen, rec["real"]):
+            # the selected covariance has a smaller batch shape than mean[idx]; the constructor of the result broadcasts it
+            ctx.count("batch_advanced_cov_broadcast_by_constructor")
+            continue
         if rec["valid"] and not rec["rejected"] and rec["real"] is not None and gen != rec["real"]:
             mism += 1
             mk = ctx.notes.setdefault("model_mismatch_keys", {})
@@ -560,6 +738,8 @@ def run_cells(ctx, want_driver=True, deep=False):
                 ctx.broke("correspondence", "model-mismatch:" + rec["key"],
                           f"{rec['text']}: generated code gives {gen}, the implementation selected {rec['real']}")
     ctx.count("driver_lines", len(lines))
+    ctx.count("driver_lines_full_getitem", sum(1 for r in recs if r.get("b")))
+    ctx.count("driver_lines_full_getitem_batch_advanced", sum(1 for r in recs if r.get("b") and r.get("batch_adv")))
     ctx.count("model_mismatches", mism)
     ctx.count("spec_model_mismatches", spec_mism)
 
@@ -720,6 +900,115 @@ def _numeric_history(d, mean, K, mean0, K0, var_ref, first, report):
     report("inputs-untouched", bool((mean == mean0).all()) and bool((K == K0).all()), "mean / covariance tensor passed in was modified")
 
 
+def _one_gaussian(d, n, t, inter, batch, gen, report, tag, Kref=None):
+    """One object = ONE joint Gaussian N(flatten(d.mean), d.covariance_matrix): every view of the object (log_prob,
+    the centre of rsample, variance, the means / densities of d[idx], to_data_independent_dist) must describe that
+    Gaussian, and asking twice must give the same answer.  Which values the object holds is not prescribed here."""
+    import torch
+    import warnings
+    with warnings.catch_warnings():
+        warnings.simplefilter("ignore")
+        m = d.mean.clone()
+        Kd = d.covariance_matrix.clone()
+        report(f"{tag}-mean-repeat", *_close(d.mean, m, 0, 0))
+        report(f"{tag}-cov-repeat", *_close(d.covariance_matrix, Kd, 0, 0))
+        if Kref is not None:
+            Kd = Kref
+        if tuple(m.shape) != (*batch, n, t):
+            report(f"{tag}-mean-shape", False, f"shape {tuple(m.shape)}")
+            return
+        m_flat = _flatten(m, inter)
+        x = m + 0.3 * (torch.rand(*batch, n, t, generator=gen, dtype=torch.float64) * 2 - 1)
+        lp = d.log_prob(x)
+        report(f"{tag}-log_prob", *_close(lp, _logpdf(_flatten(x, inter), m_flat, Kd), 1e-9, 1e-9))
+        report(f"{tag}-log_prob-repeat", *_close(d.log_prob(x), lp, 0, 0))
+        c0 = d.rsample(base_samples=torch.zeros(*batch, n, t, dtype=torch.float64))
+        report(f"{tag}-rsample-centre", *_close(c0, m, 1e-12, 1e-12))
+        dg = torch.diagonal(Kd, dim1=-1, dim2=-2)
+        report(f"{tag}-variance", *_close(d.variance, dg.reshape(*batch, n, t) if inter else dg.reshape(*batch, t, n).transpose(-1, -2)))
+        pos = torch.tensor([[i * t + a if inter else a * n + i for a in range(t)] for i in range(n)])
+        i, a = n - 1, 0
+        for name, sub, ref_m, pp in (("point", d[..., i, :], m[..., i, :], pos[i, :]), ("task", d[..., :, a], m[..., :, a], pos[:, a])):
+            report(f"{tag}-getitem-{name}-mean", *_close(sub.mean, ref_m, 0, 0))
+            y = ref_m + 0.2
+            report(f"{tag}-getitem-{name}-log_prob",
+                   *_close(sub.log_prob(y), _logpdf(y, ref_m, Kd[..., pp.unsqueeze(-1), pp.unsqueeze(-2)]), 1e-9, 1e-9))
+        s2 = d[..., : n, :]
+        report(f"{tag}-getitem-slices-mean", *_close(s2.mean, m, 0, 0))
+        report(f"{tag}-to_data_independent_dist-mean", *_close(d.to_data_independent_dist(jitter_val=0.0).mean, m, 0, 0))
+        report(f"{tag}-mean-repeat2", *_close(d.mean, m, 0, 0))
+
+
+def run_inplace(ctx, gen):
+    """History class "argument tensors updated in place after construction" (optimizer step, re-used buffer): the mean
+    tensor (full, 1 x t and n x 1 broadcast forms; the flat `loc` aliases it only when interleaved and full) and a dense
+    covariance tensor are modified in place, before any use of the object and after every view has been used once;
+    afterwards the object must still be ONE Gaussian (`_one_gaussian`): either every view follows the update or none."""
+    import torch
+    import warnings
+    from linear_operator import to_linear_operator
+    from gpytorch.distributions import MultitaskMultivariateNormal
+    sizes = ((3, 2), (2, 3)) if ctx.quick else ((3, 2), (2, 3), (2, 2), (1, 3), (4, 1))
+    for (n, t), inter, batch, mform, cform, when, target in itertools.product(
+            sizes, (True, False), ((), (2,)), ("full", "row", "col", "noncontig"), ("dense", "lazy"), ("fresh", "used"),
+            ("mean", "cov")):
+        if target == "cov" and cform != "dense":
+            continue    # a LinearOperator wrapping the tensor: linear_operator's caches are its own business
+        if ctx.quick and batch and (n, t) != (3, 2):
+            continue
+        N = n * t
+        lay = "interleaved" if inter else "noninterleaved"
+        K = _rand_cov(gen, batch, N)
+        Ksrc = K.clone()
+        shape = {"full": (n, t), "row": (1, t), "col": (n, 1), "noncontig": (n, t)}[mform]
+        if shape == (1, 1) and N > 1:
+            continue    # ambiguous: a 1 x 1 mean
+        if (mform == "row" and n == 1) or (mform == "col" and t == 1):
+            continue
+        src = torch.rand(*batch, *shape, generator=gen, dtype=torch.float64) * 4 - 2
+        if mform == "noncontig":
+            src = (torch.rand(*batch, t, n, generator=gen, dtype=torch.float64) * 4 - 2).transpose(-1, -2)
+        desc = f"inplace n={n} t={t} {lay} batch={list(batch)} mean={mform} cov={cform} {when} update={target}"
+        rp = {"n": n, "t": t, "inter": inter, "batch": list(batch), "numeric": True, "what": "inplace", "mform": mform,
+              "cform": cform, "when": when, "target": target}
+
+        def report(what, ok, info, desc=desc, rp=rp, lay=lay):
+            ctx.case(f"{desc} {what}")
+            ctx.count("numeric_checks")
+            if not ok:
+                ctx.fail(f"numeric:{what}:{lay}", f"{desc}: {what}: the object no longer denotes one Gaussian ({info})", dict(rp, site=what))
+        try:
+            with warnings.catch_warnings():
+                warnings.simplefilter("ignore")
+                d = MultitaskMultivariateNormal(src, Ksrc if cform == "dense" else to_linear_operator(Ksrc), interleaved=inter)
+            if when == "used":
+                _one_gaussian(d, n, t, inter, batch, gen, report, "inplace-before")
+            with torch.no_grad():
+                if target == "mean":
+                    src.add_(1.5)
+                    src.mul_(-0.5)
+                else:
+                    Ksrc.mul_(1.7)
+                    Ksrc.add_(0.3 * torch.eye(N, dtype=torch.float64))
+            Kref = None
+            if target == "cov":
+                # torch.distributions.MultivariateNormal (outside gpytorch) keeps the dense argument tensor as its
+                # `covariance_matrix` attribute and factorises it once at construction: the attribute follows an in-place
+                # update, the factor does not.  Recorded as an observation; gpytorch's own views are judged against
+                # whichever of the old / new matrix the variance reports - all of them must agree on that one.
+                with warnings.catch_warnings():
+                    warnings.simplefilter("ignore")
+                    var = _flatten(d.variance, inter)
+                    follows = _close(var, torch.diagonal(Ksrc, dim1=-1, dim2=-2))[0]
+                    Kref = Ksrc.clone() if follows else K
+                    if not _close(d.covariance_matrix, Kref)[0]:
+                        ctx.notes["observation_dense_cov_attribute_follows_inplace_update"] = \
+                            "torch.distributions keeps the argument tensor as covariance_matrix; factor computed at construction"
+            _one_gaussian(d, n, t, inter, batch, gen, report, f"inplace-{target}", Kref)
+        except Exception as e:
+            report("inplace-raises", False, f"{type(e).__name__}: {str(e)[:150]}")
+
+
 def run_numeric(ctx):
     import torch
     import warnings
@@ -756,6 +1045,7 @@ def run_numeric(ctx):
             site = [f.name for f in traceback.extract_tb(e.__traceback__) if "multitask_multivariate_normal" in f.filename]
             report((site[-1] if site else "call") + "-raises", False, f"{type(e).__name__}: {str(e)[:150]}")
     run_broadcast_ctor(ctx, gen)
+    run_inplace(ctx, gen)
     # rsample without base samples: moments of the joint (statistical, 6-sigma bounds; deterministic per seed)
     for (n, t), inter, form in (((3, 2), True, "lazy"), ((3, 2), False, "lazy"), ((2, 3), False, "diag"), ((2, 3), True, "root"),
                                 ((2, 3), False, "rootwide")):
@@ -1198,12 +1488,19 @@ def _deep_search(ctx):
     """Failing-input search: every oracle here is the hand-written specification (torch on plain tensors, dense joint),
     none depends on the translator output or on the Lean build; run at the thorough bounds."""
     tier, ctx.tier = ctx.tier, "thorough"
+    # budget: the quick tier must stay quick also when a proof / the tie broke (the exhaustive product is 570 k cells)
+    budget = float(os.environ.get("VERIF_C11_DEEP_BUDGET", "40" if tier == "quick" else "420"))
+    t0 = time.time()
     try:
-        run_numeric(ctx)
+        if tier != "quick":
+            run_numeric(ctx)
         if not _unknown_failures(ctx):
+            _state["deadline"] = t0 + budget
             run_cells(ctx, want_driver=False, deep=True)
     finally:
+        _state.pop("deadline", None)
         ctx.tier = tier
+        ctx.notes["deep_search_wall_s"] = round(time.time() - t0, 1)
 
 
 def search(ctx, broken):
